@@ -48,6 +48,14 @@ pub struct EngCfg {
     pub record_choices: bool,
     /// Part of the systematic single-pre-emption sweep (evidence only).
     pub sweep: bool,
+    /// Lifecycle / routing workloads: probability (%) that a raw request is "doomed": a 300 us
+    /// deadline, no retries, and the wire never answers it. Its deadline is only allowed to pass
+    /// once the frame is `Sent` (nobody inside the buffer), so the expiry stays outside the window
+    /// that C06 owns. The request must resolve to a PDU timeout.
+    pub expire_pct: u64,
+    /// Probability (%) that a future which has resolved (value or error) is kept alive by the
+    /// caller and dropped only some requests later, as an enclosing select/join would.
+    pub keep_resolved_pct: u64,
 }
 
 #[derive(Clone, Debug)]
@@ -92,6 +100,9 @@ pub struct ExecResult {
     pub max_vtime: u64,
     pub alloc_refused: u64,
     pub forever_observed: u64,
+    pub resolved_futures_kept: u64,
+    pub resolved_futures_dropped_late: u64,
+    pub doomed_expired: u64,
 }
 
 struct WireFrame {
@@ -112,6 +123,10 @@ struct Shared {
     /// C06: per first-index transmissions seen by the send closure.
     tx_log: Vec<(u8, Vec<u8>, u64)>,
     rng: Option<Rng>,
+    /// first tags of doomed requests (never answered by the wire)
+    doomed_tags: std::collections::HashSet<u32>,
+    /// slots of doomed requests whose future is still pending
+    doomed_live: Vec<usize>,
 }
 
 const A_TX: usize = 0;
@@ -210,7 +225,7 @@ fn run_n<const N: usize>(cfg: &EngCfg, seed: u64) -> ExecResult {
             let (sched, shared, cfg) = (sched.clone(), shared.clone(), cfg.clone());
             s.spawn(move || {
                 let ctx = Ctx::enter(sched, A_CLOCK);
-                if cfg.deadlines.is_some() {
+                if cfg.deadlines.is_some() || cfg.expire_pct > 0 {
                     clock_actor(&ctx, &shared, &cfg);
                 }
                 ctx.leave();
@@ -337,6 +352,10 @@ fn tx_actor(ctx: &Ctx<PlMon>, tx: &mut PduTx<'_>, shared: &Arc<Mutex<Shared>>, c
 
 fn put_on_wire(ctx: &Ctx<PlMon>, shared: &Arc<Mutex<Shared>>, cfg: &EngCfg, tx_bytes: &[u8]) {
     let mut sh = lk(shared);
+    if tx_bytes.len() >= 22 && sh.doomed_tags.contains(&u32::from_le_bytes([tx_bytes[18], tx_bytes[19], tx_bytes[20], tx_bytes[21]])) {
+        sh.res.lost += 1;
+        return;
+    }
     if let Some(d) = &cfg.deadlines {
         // only requests of the victim tasks (tag byte 3 = task number + 1) are lost
         let victim_frame = tx_bytes.len() >= 22 && tx_bytes[21] > 1;
@@ -418,7 +437,13 @@ fn clock_actor(ctx: &Ctx<PlMon>, shared: &Arc<Mutex<Shared>>, cfg: &EngCfg) {
         if lk(shared).apps_done == cfg.apps {
             break;
         }
-        match vclock::next_deadline().filter(|t| *t < vclock::now() + 10_000_000) {
+        // doomed requests (lifecycle workloads): their deadline may pass only while the frame is
+        // `Sent`, i.e. while neither TX nor RX is inside the buffer
+        let hold = cfg.deadlines.is_none() && {
+            let live = lk(shared).doomed_live.clone();
+            ctx.mon(|m| live.iter().any(|s| m.shadow[*s] != ST_SENT))
+        };
+        match vclock::next_deadline().filter(|t| *t < vclock::now() + 10_000_000 && !hold) {
             Some(t) => {
                 vclock::advance_to(t);
                 ctx.yield_now();
@@ -486,6 +511,8 @@ fn app_actor<'a>(ctx: &Ctx<PlMon>, md: &'a MainDevice<'a>, shared: &Arc<Mutex<Sh
     let mut rng = Rng::new(seed).fork(1000 + a as u64);
     let cap = cfg.frame_len - 28;
     let mut held: Vec<HeldView<'a>> = vec![];
+    // futures that have resolved but are kept alive for a while: they own nothing any more
+    let mut resolved: Vec<Pin<Box<ev::ReceiveFrameFut<'a>>>> = vec![];
     let mut seq: u32 = 0;
     let me = ctx.id;
 
@@ -620,16 +647,23 @@ fn app_actor<'a>(ctx: &Ctx<PlMon>, md: &'a MainDevice<'a>, shared: &Arc<Mutex<Sh
                 ctx.yield_now();
                 continue;
             }
+            let doomed = my_deadlines.is_none() && cfg.deadlines.is_none() && !cfg.index_wrap && rng.below(100) < cfg.expire_pct;
             let (to, retries) = match &my_deadlines {
                 Some(d) => (Duration::from_micros(d.timeout_us), d.retries),
+                None if doomed => (Duration::from_micros(300), 0),
                 None => (Duration::from_secs(100_000), 0),
             };
+            if doomed {
+                let mut sh = lk(shared);
+                sh.doomed_tags.insert(spec.cmds[0].1);
+                sh.doomed_live.push(slot);
+            }
             let tok_fut = ctx.mon(|m| {
                 m.remove_holder(slot, tok_created);
                 m.add_holder(slot, me, HolderKind::Future)
             });
             let mut fut = Some(Box::pin(ev::mark_sendable(frame, pl, to, retries)));
-            let abandon = rng.below(100) < cfg.abandon_pct;
+            let abandon = !doomed && rng.below(100) < cfg.abandon_pct;
             let abandon_any = my_deadlines.as_ref().is_some_and(|d| rng.below(100) < d.abandon_any_pct);
             let abandon_after = rng.usize_below(4);
             let waker = ctx.waker();
@@ -669,6 +703,11 @@ fn app_actor<'a>(ctx: &Ctx<PlMon>, md: &'a MainDevice<'a>, shared: &Arc<Mutex<Sh
                     }
                 }
             };
+            if doomed {
+                lk(shared).doomed_live.retain(|s| *s != slot);
+                ctx.wake_actor(A_CLOCK);
+            }
+            let keep_resolved = outcome.is_some() && rng.below(100) < cfg.keep_resolved_pct;
             match outcome {
                 None => {
                     // abandonment. Lifecycle workloads may only abandon while nobody is inside:
@@ -705,10 +744,19 @@ fn app_actor<'a>(ctx: &Ctx<PlMon>, md: &'a MainDevice<'a>, shared: &Arc<Mutex<Sh
                 }
                 Some(Err(e)) => {
                     ctx.mon(|m| m.remove_holder(slot, tok_fut));
+                    if keep_resolved {
+                        resolved.push(fut.take().unwrap());
+                        lk(shared).res.resolved_futures_kept += 1;
+                    }
                     drop(fut);
                     match (&e, &my_deadlines) {
                         (Error::Timeout(_), Some(_)) => {
                             lk(shared).res.timeouts += 1;
+                        }
+                        (Error::Timeout(_), None) if doomed => {
+                            let mut sh = lk(shared);
+                            sh.res.timeouts += 1;
+                            sh.res.doomed_expired += 1;
                         }
                         _ => {
                             ctx.mon(|m| m.violation(&format!("{P}:request-failed:raw:{}", variant(&e)), format!("{} request in slot {slot} failed with {e:?}", names_of(a))));
@@ -716,7 +764,14 @@ fn app_actor<'a>(ctx: &Ctx<PlMon>, md: &'a MainDevice<'a>, shared: &Arc<Mutex<Sh
                     }
                 }
                 Some(Ok(rf)) => {
+                    if keep_resolved {
+                        resolved.push(fut.take().unwrap());
+                        lk(shared).res.resolved_futures_kept += 1;
+                    }
                     drop(fut.take());
+                    if doomed {
+                        ctx.mon(|m| m.violation(&format!("{P}:unanswered-request-completed"), format!("{} request in slot {slot} was never answered by the wire but completed with a response", names_of(a))));
+                    }
                     lk(shared).res.completed += 1;
                     let tok_rf = ctx.mon(|m| {
                         m.remove_holder(slot, tok_fut);
@@ -820,6 +875,14 @@ fn app_actor<'a>(ctx: &Ctx<PlMon>, md: &'a MainDevice<'a>, shared: &Arc<Mutex<Sh
             }
         }
 
+        // ---- resolved futures kept so far: some are dropped now (a resolved future owns nothing:
+        // dropping it must not touch any slot, whoever uses its former slot by now)
+        while !resolved.is_empty() && rng.chance(1, 3) {
+            let i = rng.usize_below(resolved.len());
+            drop(resolved.swap_remove(i));
+            lk(shared).res.resolved_futures_dropped_late += 1;
+        }
+
         // ---- M-view: verify everything held, trim some, keep some across the next request
         verify_views(ctx, pl, &mut held, shared, "fresh-or-held", P);
         for h in held.iter_mut() {
@@ -839,6 +902,10 @@ fn app_actor<'a>(ctx: &Ctx<PlMon>, md: &'a MainDevice<'a>, shared: &Arc<Mutex<Sh
         } else {
             release_views!(0);
         }
+    }
+    while let Some(f) = resolved.pop() {
+        drop(f);
+        lk(shared).res.resolved_futures_dropped_late += 1;
     }
     verify_views(ctx, pl, &mut held, shared, "final", P);
     release_views!(0);
